@@ -70,6 +70,7 @@ func propRegistry() map[string]PropSpec {
 			{Pkg: "cache", Fn: "Harness_C04_cacheable_establishes", Init: initCache, Reach: []string{"C04.cacheable.end"}, EngineOnly: true},
 			{Pkg: "cache", Fn: "Harness_C04_get_step", Init: initCache, Reach: []string{"C04.get.hit", "C04.get.expired"}, EngineOnly: true},
 			{Pkg: "cache", Fn: "Harness_C04_age", Init: initCache, Reach: []string{"C04.age.end"}},
+			{Pkg: "cache", Fn: "Harness_C08_cacheable_restart", Init: initCache, Reach: []string{"C08.restart.expired", "C08.restart.restored"}},
 		},
 		Explanation: "One-step inductive check on the cache entry: for an arbitrary stored entry satisfying the invariant (status hit => expiredAt = createdAt + T) and an arbitrary later clock value (64-bit, free non-decreasing clock stub replacing cache.nowUnix), one Get() either serves the stored response within the lifetime or turns the entry to fetching; Cacheable re-establishes the invariant from any state. Real SSA of (*httpCache).Get/get/Cacheable/Age.",
 		Assumptions: []string{
@@ -101,6 +102,38 @@ func propRegistry() map[string]PropSpec {
 	})
 
 	add(PropSpec{
+		ID: "C07",
+		Harnesses: []HarnessSpec{
+			{Pkg: "cache", Fn: "Harness_C07_mark", Init: initCache, Reach: []string{"C07.mark.end"}, EngineOnly: true},
+			{Pkg: "cache", Fn: "Harness_C07_get_step", Init: initCache, Reach: []string{"C07.within-period", "C07.after-period"}, EngineOnly: true},
+			{Pkg: "cache", Fn: "Harness_C07_dispatcher_period", Init: initCache, Reach: []string{"C07.disp.end"}},
+			{Pkg: "cache", Fn: "Harness_C08_hitforpass_restart", Init: initCache, Reach: []string{"C08.hfp.lapsed", "C08.hfp.restored"}},
+		},
+		Explanation: "Inductive step on the hit-for-pass marker: for an arbitrary marker (set at any time, any period 1..2^40, with or without a stale response) and any later clock value, one Get() forwards the request (status hitForPass, no response, no queueing, marker untouched) while the period runs, and turns into the single probe (fetching) afterwards; the probe's outcome makes the key cacheable or marks it again. HitForPass(p) uses p seconds, 300 when p <= 0. Concurrent bursts are decided by the BMC systems (C01/C02).",
+		Assumptions: []string{"free non-decreasing 64-bit clock", "period < 2^40 seconds", "sequential step; a request that would be queued shows up as a blocked path (no-deadlock)", "with a store: faithful lazy-TTL store (C08)"},
+		Encoded:     []string{"cache.(*httpCache).Get", "cache.(*httpCache).get", "cache.(*httpCache).HitForPass", "cache.(*httpCache).Cacheable", "cache.(*dispatcher).GetHitForPass", "cache.NewDispatcher"},
+		Bounds:      map[string]string{"period": "1..2^40 s, configured value any int (<=0 => 300)", "clock": "64-bit free"},
+	})
+
+	add(PropSpec{
+		ID: "C08",
+		Harnesses: []HarnessSpec{
+			{Pkg: "cache", Fn: "Harness_C08_cacheable_restart", Init: initCache, Reach: []string{"C08.restart.expired", "C08.restart.restored", "C08.restart.uncommitted"}},
+			{Pkg: "cache", Fn: "Harness_C08_hitforpass_restart", Init: initCache, Reach: []string{"C08.hfp.lapsed", "C08.hfp.restored"}},
+			{Pkg: "cache", Fn: "Harness_C08_dispatcher_wiring", Init: initCache, Reach: []string{"C08.wiring.end"}},
+			{Pkg: "cache", Fn: "Harness_C09_roundtrip", Init: initCache, Reach: []string{"C09.roundtrip.end"}},
+		},
+		Explanation: "Symbolic execution of pike's write-through / restore code modulo a faithful-store contract: after a cacheable fetch (or a hit-for-pass marking) the store holds exactly the bytes of the final in-memory state with the remaining lifetime as TTL; a brand-new entry for the same key (eviction, stop, or kill + restart) at any later clock value restores it unchanged while fresh (Age continuing from the original fetch), refetches after expiry, and refetches when the Set had not returned before the kill (the kill point is a symbolic commit flag). The record format itself is the C09 round trip.",
+		Assumptions: []string{
+			"faithful store contract: a Set that returned is durable and atomic, Delete removes, nothing is altered by the store; TTL enforcement is lazy (records may still be returned after their TTL, as with mongodb)",
+			"badger/redis/mongodb themselves (crash consistency, re-open after kill, TTL) and main.go's signal handling are outside the claim (third-party storage engines / OS)",
+			"T < 2^31 so that the time.Duration product does not overflow; free 64-bit clock",
+		},
+		Encoded: []string{"cache.(*httpCache).Cacheable", "cache.(*httpCache).HitForPass", "cache.(*httpCache).saveToStore", "cache.(*httpCache).initFromStore", "cache.(*httpCache).Bytes", "cache.(*httpCache).FromBytes", "cache.(*httpCache).Age", "cache.NewHTTPStoreCache", "cache.(*dispatcher).GetHTTPCache", "cache.(*dispatcher).RemoveHTTPCache"},
+		Bounds:  map[string]string{"kill points": "before / after each store.Set returns (symbolic commit flag)", "T": "1..2^31"},
+	})
+
+	add(PropSpec{
 		ID: "C09",
 		Harnesses: []HarnessSpec{
 			{Pkg: "cache", Fn: "Harness_C09_roundtrip", Init: initCache, Reach: []string{"C09.roundtrip.end"}},
@@ -117,6 +150,24 @@ func propRegistry() map[string]PropSpec {
 		},
 		Encoded: []string{"cache.(*httpCache).Bytes", "cache.(*httpCache).FromBytes", "cache.(*HTTPResponse).Bytes", "cache.(*HTTPResponse).FromBytes", "cache.uint32ToBytes", "cache.uint64ToBytes", "cache.readUint32ToInt", "cache.readUint64ToInt64"},
 		Bounds:  map[string]string{"garbage": "all byte strings of length 0..64 (80 thorough)", "round trip": "see assumptions", "truncation": "every cut offset of the records of the truncation harness"},
+	})
+
+	add(PropSpec{
+		ID: "C10",
+		Harnesses: []HarnessSpec{
+			{Pkg: "cache", Fn: "Harness_C10_get_faulty_store", Init: initCache, Reach: []string{"C10.miss", "C10.restored"}},
+			{Pkg: "cache", Fn: "Harness_C10_hitforpass_set_fault", Init: initCache, Reach: []string{"C10.hfp.end"}, EngineOnly: true},
+			{Pkg: "cache", Fn: "Harness_C10_purge_delete_fault", Init: initCache, Reach: []string{"C10.purge.end"}},
+		},
+		Explanation: "Every store answer is a solver variable: Get returns not-found, an error, data with an error, or an arbitrary byte string of up to 60 bytes (uninterpreted content, symbolic length); Set/Delete fail or succeed arbitrarily. The real (*httpCache).Get/get/initFromStore/FromBytes/Cacheable/HitForPass/saveToStore and (*dispatcher).RemoveHTTPCache are executed symbolically and the post-state must be a miss or a valid unexpired hit / hit-for-pass marker; a request that would park behind a fetch nobody performs shows up as a blocked path (no-deadlock).",
+		Assumptions: []string{
+			"records <= 60 bytes (a minimal hit record is 56 bytes, a hit-for-pass record 24)",
+			"a store call that never returns is outside the claim (pike has no timeout of its own around the store); timeouts are modelled as calls that return an error",
+			"encoding/json and regexp.Compile on record contents are free-outcome stubs (see C09)",
+			"free non-decreasing 64-bit clock; sequential single request (waiters under store faults are covered by the BMC system of C02 when a store is configured)",
+		},
+		Encoded: []string{"cache.(*httpCache).Get", "cache.(*httpCache).get", "cache.(*httpCache).initFromStore", "cache.(*httpCache).FromBytes", "cache.(*httpCache).saveToStore", "cache.(*httpCache).Cacheable", "cache.(*httpCache).HitForPass", "cache.(*dispatcher).RemoveHTTPCache"},
+		Bounds:  map[string]string{"record": "all byte strings of length 0..60", "faults": "every combination of Get/Set/Delete outcomes on the explored call sequence"},
 	})
 
 	add(PropSpec{
